@@ -66,7 +66,8 @@ def edge_list(draw, n, family=None, max_extra=None):
     elif fam == 'tree':
         es = [(draw(st.integers(0, i - 1)), i) for i in range(1, n)]
     elif fam == 'hub':          # one node adjacent to (almost) everybody, few other edges: two very different degree values
-        es = [(0, i) for i in range(1, n) if draw(st.integers(0, 9)) > 0] + [p for p in pairs if p[0] != 0 and draw(st.integers(0, 7)) == 0]
+        full = draw(st.booleans())
+        es = [(0, i) for i in range(1, n) if full or draw(st.integers(0, 9)) > 0] + [p for p in pairs if p[0] != 0 and draw(st.integers(0, 7)) == 0]
     elif fam == 'sparse':
         es = [p for p in pairs if draw(st.integers(0, 3)) == 0]
     else:
